@@ -450,7 +450,7 @@ PROPS["C26"] = P("exploration",
     "and `cargo test --no-run --offline` (i.e. rustc, including the stub's tests) is the oracle; compile errors are attributed to modules by path "
     "and the remaining modules are re-compiled. distinct_nontrivial = distinct name sets of generated stubs",
     quick={"cases": 20, "timeout": 900},
-    thorough={"cases": 120, "timeout": 2400},
+    thorough={"cases": 200, "timeout": 2400},
     floors={"evaluations": 8, "distinct": 6},
     technique="runtime monitoring of the generator with rustc as the oracle over its output",
     level_note="the oracle observing the generator's execution is rustc; compile time bounds the number of schemas")
@@ -543,7 +543,7 @@ PROPS["C27"] = P("exploration",
     "lists, tuples, dicts, bytes (valid ones must select exactly the matching vertices, non-convertible ones must raise). thorough adds a run "
     "under valgrind memcheck counting only errors whose stack passes through the extension module. distinct_nontrivial = distinct query skeletons with rows",
     quick={"cases": 60, "timeout": 600, "workers": 8, "valgrind_cases": 0},
-    thorough={"cases": 2500, "timeout": 2400, "workers": 16, "valgrind_cases": 40},
+    thorough={"cases": 8000, "timeout": 2400, "workers": 16, "valgrind_cases": 120},
     floors={"evaluations": 300, "distinct": 60, "counters": {"rows_compared": 300, "battery_accepted": 40, "battery_rejected": 15}},
     technique="differential runtime monitor across the PyO3 FFI boundary (Rust engine vs Python bindings) + valgrind memcheck on the extension module",
     level_note="trusted base: the Python mirror adapter, the harness generators; CPython 3.11; valgrind sees only the executions driven")
